@@ -274,3 +274,672 @@ Qed.
 Example flatx_example_text :
   wcparse linux EXTMATCH false (unparse [TStar; TLit 43%N; TQ; TLit 97%N; TLit 40%N]) = inl (S_ "^(?s:(?=.)(?![.]).*?\+.a\()$").
 Proof. vm_compute. reflexivity. Qed.
+
+(* ================================================================================================================
+   Extended groups of literal alternatives: `?(a|bc)`, `*(…)`, `+(…)`, `@(…)` between flat tokens
+   ================================================================================================================ *)
+
+(* a flat run followed by arbitrary further text [tail]: what the tail may start with *)
+Definition nostar_head (s : str) : bool := match s with c :: _ => negb (N.eqb c 42) | [] => true end.
+
+Lemma nostar_head_app ts tail : ts <> [] -> nostar_head (unparse ts ++ tail) = nostar_head (unparse ts).
+Proof. destruct ts as [|t ts]; [contradiction|]. intros _. destruct (unparse_cons t ts) as [d [r E]]. rewrite E. reflexivity. Qed.
+Lemma head_ok_app ts tail : ts <> [] -> head_ok (unparse ts ++ tail) = head_ok (unparse ts).
+Proof. destruct ts as [|t ts]; [contradiction|]. intros _. destruct (unparse_cons t ts) as [d [r E]]. rewrite E. reflexivity. Qed.
+
+Fixpoint ends_star (ts : list tok) : bool :=
+  match ts with
+  | [] => false
+  | [t] => match t with TStar => true | _ => false end
+  | _ :: r => ends_star r
+  end.
+Lemma ends_star_cons t t2 ts : ends_star (t :: t2 :: ts) = ends_star (t2 :: ts).
+Proof. reflexivity. Qed.
+
+Section AdvX.
+  Variable cf : cfg.
+  Hypothesis Hpath : c_pathname cf = false.
+  Hypothesis Habort : c_bslash_abort cf = false.
+  Hypothesis Hunix : c_unix cf = true.
+  Hypothesis Hsep : c_sep cf = S_ "[/]".
+  Hypothesis Hneed : c_need_char cf = Frag.u_NEED_CHAR.
+
+  Lemma flat_advance : forall ts fuel st i cur first tail,
+    wf ts = true -> wfx ts = true -> (ends_star ts = true -> nostar_head tail = true) -> head_ok tail = true ->
+    (2 * length (unparse ts) <= fuel)%nat -> inv2x first st ->
+    exists f' st' i' cur',
+      (fuel - 2 * length (unparse ts) <= f')%nat /\
+      root_loop fuel cf st {| idx := i; rest := unparse ts ++ tail |} cur = root_loop f' cf st' {| idx := i'; rest := tail |} cur' /\
+      jrev cur' = jrev cur ++ print (emit (c_dot cf) first ts) /\
+      inv2x (match ts with [] => first | _ => false end) st'.
+  Proof.
+    induction ts as [|t ts IH]; intros fuel st i cur first tail W Wx Ht1 Ht2 Hf I2.
+    - exists fuel, st, i, cur. split; [cbn; lia|]. split; [reflexivity|]. split; [cbn; rewrite app_nil_r; reflexivity|exact I2].
+    - pose proof Wx as Wx0. cbn [wfx] in Wx. apply andb_true_iff in Wx. destruct Wx as [Wx1 Wx'].
+      destruct I2 as [I2 [Il In]]. assert (I2x : inv2x first st) by (split; [exact I2|split; assumption]).
+      change (unparse (t :: ts)) with (unparse1 t ++ unparse ts) in *. rewrite app_length in Hf. rewrite <- app_assoc.
+      assert (Ht1' : ends_star ts = true -> nostar_head tail = true).
+      { intros Es. apply Ht1. destruct ts as [|t2 ts2]; [discriminate|]. rewrite ends_star_cons. exact Es. }
+      assert (Hok : ends_ext t = true -> head_ok (unparse ts ++ tail) = true).
+      { intros Ee. destruct ts as [|t2 ts2]; [exact Ht2|]. rewrite head_ok_app by discriminate. exact (head_ok_unparse t (t2 :: ts2) Wx0 Ee). }
+      destruct t as [c|c| | |neg l].
+      + cbn [unparse1 app length] in *. cbn [wf] in W. apply andb_true_iff in W. destruct W as [Wc W].
+        destruct fuel as [|[|f]]; [lia|lia|].
+        assert (Hh : ch_in c ext_types = false \/ head_ok (unparse ts ++ tail) = true).
+        { destruct (ch_in c ext_types) eqn:Ec; [right; apply Hok; exact Ec|left; reflexivity]. }
+        destruct (stepx_lit cf Hpath Hsep f st i c (unparse ts ++ tail) cur Wc Hh Il In) as [st1 [C E1]].
+        destruct (IH (S f) (update_dir_state st1) (i + 1) (T (print1 (lit_re c)) :: cur) false tail W Wx' Ht1' Ht2 ltac:(lia)
+                     (inv2x_update _ _ (inv2x_core _ _ _ C I2x))) as [f' [st' [i' [cur' [F' [E [J K]]]]]]].
+        exists f', st', i', cur'. split; [lia|]. split; [eapply eq_trans; [exact E1|exact E]|]. split.
+        * rewrite J, jrev_cons. cbn [emit print flat_map]. rewrite <- app_assoc. reflexivity.
+        * destruct ts; exact K.
+      + cbn [unparse1 app length] in *. cbn [wf] in W. apply andb_true_iff in W. destruct W as [Wc W].
+        unfold escapable, ch_in in Wc. cbn [existsb] in Wc. apply negb_true_iff in Wc. apply orb_false_iff in Wc.
+        destruct Wc as [W47 Wc]. apply orb_false_iff in Wc. destruct Wc as [W46 _].
+        destruct fuel as [|f]; [lia|].
+        pose proof (step_escaped cf Habort Hunix f st i c (unparse ts ++ tail) cur (inv2_inv _ _ I2)) as E1.
+        specialize (E1 ltac:(intros ->; discriminate) ltac:(intros ->; discriminate)).
+        destruct (IH f (update_dir_state st) (i + 1 + 1) (T (re_escape_ch c) :: cur) false tail W Wx' Ht1' Ht2 ltac:(lia) (inv2x_update _ _ I2x))
+          as [f' [st' [i' [cur' [F' [E [J K]]]]]]].
+        exists f', st', i', cur'. split; [lia|]. split; [eapply eq_trans; [exact E1|exact E]|]. split.
+        * rewrite J, jrev_cons. cbn [emit print flat_map print1]. rewrite <- app_assoc. reflexivity.
+        * destruct ts; exact K.
+      + cbn [unparse1 app length] in *. cbn [wf] in W.
+        destruct fuel as [|[|f]]; [lia|lia|].
+        destruct (stepx_q cf Hpath f st i (unparse ts ++ tail) cur (Hok eq_refl) Il In) as [st1 [C E1]].
+        destruct (IH (S f) (update_dir_state (reset_dir_track st1)) (i + 1)
+                     (T ((if after_start st && negb (c_dot cf) then Frag.u_NO_DOT else []) ++ Frag.u_QMARK) :: cur)
+                     false tail W Wx' Ht1' Ht2 ltac:(lia) (inv2x_update_reset _ _ (inv2x_core _ _ _ C I2x)))
+          as [f' [st' [i' [cur' [F' [E [J K]]]]]]].
+        exists f', st', i', cur'. split; [lia|]. split; [eapply eq_trans; [exact E1|exact E]|]. split.
+        * rewrite J, jrev_cons. destruct I2 as [_ [_ [_ Ha]]]. rewrite Ha. cbn [emit print].
+          destruct (first && negb (c_dot cf)); cbn [app flat_map print1]; rewrite <- ?app_assoc; reflexivity.
+        * destruct ts; exact K.
+      + cbn [unparse1 app length] in *.
+        assert (W' : wf ts = true /\ nostar_head (unparse ts ++ tail) = true).
+        { cbn [wf] in W. destruct ts as [|t2 ts2]; [split; [reflexivity|apply Ht1; reflexivity]|].
+          rewrite nostar_head_app by discriminate.
+          destruct t2 as [c2|c2| | |neg2 l2]; try discriminate; (split; [exact W|apply (unparse_head_not_star); [exact W|discriminate]]). }
+        destruct W' as [W' Hh].
+        destruct fuel as [|[|f]]; [lia|lia|].
+        destruct (stepx_star cf Hpath Hneed f st i (unparse ts ++ tail) cur ltac:(apply I2) Hh (Hok eq_refl) Il In) as [st1 [C E1]].
+        destruct (IH (S f) (update_dir_state (reset_dir_track st1)) (i + 1) (T (star_text cf st) :: cur)
+                     false tail W' Wx' Ht1' Ht2 ltac:(lia) (inv2x_update_reset _ _ (inv2x_core _ _ _ C I2x)))
+          as [f' [st' [i' [cur' [F' [E [J K]]]]]]].
+        exists f', st', i', cur'. split; [lia|]. split; [eapply eq_trans; [exact E1|exact E]|]. split.
+        * rewrite J, jrev_cons. destruct I2 as [_ [_ [_ Ha]]]. unfold star_text. rewrite Ha. cbn [emit print].
+          destruct first; cbn [andb]; destruct (c_dot cf); cbn [negb app flat_map print1]; rewrite <- ?app_assoc; reflexivity.
+        * destruct ts; exact K.
+      + cbn [wf] in W. apply andb_true_iff in W. destruct W as [W W']. apply andb_true_iff in W. destruct W as [Wl Wn].
+        assert (Hne : l <> []) by (destruct l; [discriminate|discriminate]).
+        assert (HL : (length l + 2 <= length (unparse1 (TBr neg l)))%nat).
+        { cbn [unparse1]. rewrite !app_length. cbn [length]. lia. }
+        destruct fuel as [|f]; [lia|].
+        cbn [unparse1] in *. rewrite <- !app_assoc. cbn [app].
+        assert (Q : root_loop (S f) cf st {| idx := i; rest := 91%N :: (if neg then [33%N] else []) ++ l ++ 93%N :: unparse ts ++ tail |} cur =
+                    root_loop f cf (update_dir_state (if after_start st then reset_dir_track st else st))
+                              {| idx := i + 1 + (if neg then 1 else 0) + Z.of_nat (length l) + 1; rest := unparse ts ++ tail |}
+                              (T ((if after_start st then (if negb (c_dot cf) then Frag.u_NO_DOT else []) else []) ++ br_text neg l) :: cur)).
+        { cbn [root_loop next rest idx]. replace (ch_in 91%N ext_types) with false by reflexivity. rewrite andb_false_r.
+          change (N.eqb 91%N cDOT) with false. change (N.eqb 91%N cSTAR) with false. change (N.eqb 91%N cQM) with false.
+          change (N.eqb 91%N cSL) with false. change (N.eqb 91%N cBS) with false. change (N.eqb 91%N cLB) with true. cbv iota.
+          rewrite (sequence_plain cf Hpath st (i + 1) neg l (unparse ts ++ tail) Wl Hne). reflexivity. }
+        assert (I3 : inv2x false (update_dir_state (if after_start st then reset_dir_track st else st))).
+        { destruct (after_start st) eqn:Ea; [apply (inv2x_update_reset first); exact I2x|apply (inv2x_update first); exact I2x]. }
+        destruct (IH f (update_dir_state (if after_start st then reset_dir_track st else st))
+                     (i + 1 + (if neg then 1 else 0) + Z.of_nat (length l) + 1)
+                     (T ((if after_start st then (if negb (c_dot cf) then Frag.u_NO_DOT else []) else []) ++ br_text neg l) :: cur)
+                     false tail W' Wx' Ht1' Ht2 ltac:(lia) I3)
+          as [f' [st' [i' [cur' [F' [E [J K]]]]]]].
+        exists f', st', i', cur'. split.
+        { rewrite ?app_length in *; cbn [length] in *; rewrite ?app_length in *; cbn [length] in *. cbv delta [ch str] in *. lia. }
+        split; [eapply eq_trans; [exact Q|exact E]|]. split.
+        * rewrite J, jrev_cons. destruct I2 as [_ [_ [_ Ha]]]. rewrite Ha. cbn [emit print].
+          destruct first; cbn [andb]; destruct (c_dot cf); destruct neg; cbn [negb app flat_map print1]; rewrite <- ?app_assoc; reflexivity.
+        * destruct ts; exact K.
+  Qed.
+End AdvX.
+
+(* ---- one extended group of literal alternatives ---- *)
+Definition gplain (c : ch) : bool :=
+  plain c && negb (ch_in c ext_types) && negb (ch_in c [124; 41; 40; 46; 47]%N).
+
+Definition alts_src (alts : list str) : str := join_with [124%N] alts.
+Definition alts_re (alts : list str) : str := join_with [124%N] (map re_escape alts).
+
+(* the fields a literal run inside a group never touches *)
+Definition lp_inv (st : pst) : Prop := in_list st = true /\ inv_nest st = false /\ inv_ext st = 0 /\ globstar st = false.
+Lemma lp_inv_upd st : lp_inv st -> lp_inv (update_dir_state st).
+Proof.
+  intros [A [B [C D]]]. unfold update_dir_state.
+  destruct (dir_start st && negb (after_start st)); [repeat split; assumption|].
+  destruct (negb (dir_start st) && after_start st); repeat split; assumption.
+Qed.
+Lemma lp_inv_sd st : lp_inv st -> lp_inv (set_start_dir st).
+Proof. intros [A [B [C D]]]. repeat split; assumption. Qed.
+
+Lemma gplain_facts c : gplain c = true ->
+  ch_in c ext_types = false /\ N.eqb c cSTAR = false /\ N.eqb c cDOT = false /\ N.eqb c cQM = false /\ N.eqb c cSL = false /\
+  N.eqb c cBAR = false /\ N.eqb c cBS = false /\ N.eqb c cLB = false /\ N.eqb c cRP = false.
+Proof.
+  unfold gplain. intros H. apply andb_true_iff in H. destruct H as [H H3]. apply andb_true_iff in H. destruct H as [H1 H2].
+  apply negb_true_iff in H2. apply negb_true_iff in H3.
+  unfold plain, ch_in in H1. cbn [existsb] in H1. rewrite !orb_false_r in H1. apply negb_true_iff in H1.
+  apply orb_false_iff in H1. destruct H1 as [P42 H1]. apply orb_false_iff in H1. destruct H1 as [P63 H1].
+  apply orb_false_iff in H1. destruct H1 as [P91 P92].
+  unfold ch_in in H3. cbn [existsb] in H3. rewrite !orb_false_r in H3.
+  apply orb_false_iff in H3. destruct H3 as [Q124 H3]. apply orb_false_iff in H3. destruct H3 as [Q41 H3].
+  apply orb_false_iff in H3. destruct H3 as [Q40 H3]. apply orb_false_iff in H3. destruct H3 as [Q46 Q47].
+  unfold cSTAR, cDOT, cQM, cSL, cBAR, cBS, cLB, cRP. repeat split; assumption.
+Qed.
+
+Section Grp.
+  Variable cf : cfg.
+  Hypothesis Hpath : c_pathname cf = false.
+  Hypothesis Hcapt : c_capture cf = false.
+
+  Lemma extloop_lit f st i c r extended ta tn :
+    gplain c = true ->
+    ext_loop (S f) cf st {| idx := i; rest := c :: r |} extended ta tn =
+    ext_loop f cf (update_dir_state st) {| idx := i + 1; rest := r |} (T (re_escape_ch c) :: extended) ta tn.
+  Proof.
+    intros G. destruct (gplain_facts c G) as [E0 [E1 [E2 [E3 [E4 [E5 [E6 [E7 E8]]]]]]]].
+    cbn [ext_loop next rest idx]. rewrite E0, andb_false_r. rewrite E1, E2, E3, E4, E5, E6, E7, E8. cbn [negb]. reflexivity.
+  Qed.
+
+  Lemma extloop_lits : forall a fuel st i r extended ta tn,
+    forallb gplain a = true -> (length a <= fuel)%nat -> lp_inv st ->
+    exists st', lp_inv st' /\
+      ext_loop fuel cf st {| idx := i; rest := a ++ r |} extended ta tn =
+      ext_loop (fuel - length a) cf st' {| idx := i + Z.of_nat (length a); rest := r |}
+               (rev (map (fun c => T (re_escape_ch c)) a) ++ extended) ta tn.
+  Proof.
+    induction a as [|c a IH]; intros fuel st i r extended ta tn G Hf L.
+    - exists st. split; [exact L|]. cbn [length app rev map]. rewrite Nat.sub_0_r, Z.add_0_r. reflexivity.
+    - cbn [forallb] in G. apply andb_true_iff in G. destruct G as [Gc Ga]. cbn [length] in Hf.
+      destruct fuel as [|f]; [lia|]. cbn [app]. rewrite (extloop_lit f st i c (a ++ r) extended ta tn Gc).
+      destruct (IH f (update_dir_state st) (i + 1) r (T (re_escape_ch c) :: extended) ta tn Ga ltac:(lia) (lp_inv_upd _ L)) as [st' [L' E]].
+      exists st'. split; [exact L'|]. rewrite E. cbn [length rev map]. rewrite <- app_assoc. cbn [app].
+      replace (i + 1 + Z.of_nat (length a)) with (i + Z.of_nat (S (length a))) by lia. reflexivity.
+  Qed.
+
+  Lemma jrev_lits_app a extended :
+    jrev (rev (map (fun c => T (re_escape_ch c)) a) ++ extended) = jrev extended ++ re_escape a.
+  Proof.
+    unfold jrev. rewrite rev_app_distr, rev_involutive, map_app, concat_app. f_equal.
+    unfold re_escape. induction a as [|c a IH]; [reflexivity|]. cbn [map itext concat flat_map]. rewrite IH. reflexivity.
+  Qed.
+
+  (* the whole body up to the closing parenthesis *)
+  Lemma extloop_alts : forall alts fuel st i tail extended ta,
+    Forall (fun a => forallb gplain a = true) alts -> (length (alts_src alts) + 1 <= fuel)%nat -> lp_inv st ->
+    exists st' i' ext', lp_inv st' /\
+      ext_loop fuel cf st {| idx := i; rest := alts_src alts ++ 41%N :: tail |} extended ta false =
+      Ok (st', {| idx := i'; rest := tail |}, Some ext', st') /\
+      jrev ext' = jrev extended ++ alts_re alts.
+  Proof.
+    assert (Close : forall fuel st i tail extended ta, (1 <= fuel)%nat ->
+              ext_loop fuel cf st {| idx := i; rest := 41%N :: tail |} extended ta false =
+              Ok (update_dir_state st, {| idx := i + 1; rest := tail |}, Some extended, update_dir_state st)).
+    { intros fuel st i tail extended ta Hf. destruct fuel as [|f]; [lia|]. cbn [ext_loop next rest idx].
+      replace (ch_in 41%N ext_types) with false by reflexivity. rewrite andb_false_r.
+      change (N.eqb 41%N cSTAR) with false. change (N.eqb 41%N cDOT) with false. change (N.eqb 41%N cQM) with false.
+      change (N.eqb 41%N cSL) with false. change (N.eqb 41%N cBAR) with false. change (N.eqb 41%N cBS) with false.
+      change (N.eqb 41%N cLB) with false. change (N.eqb 41%N cRP) with true. cbn [negb]. reflexivity. }
+    induction alts as [|a alts IH]; intros fuel st i tail extended ta G Hf L.
+    - cbn [alts_src join_with app] in *. rewrite Close by lia.
+      eexists. eexists. eexists. split; [apply lp_inv_upd; exact L|]. split; [reflexivity|]. cbn. rewrite app_nil_r. reflexivity.
+    - inversion G as [|? ? Ga Gs]; subst.
+      destruct alts as [|b alts'].
+      + cbn [alts_src alts_re join_with map] in *.
+        assert (Hfa : (length a + 1 <= fuel)%nat) by (cbv delta [ch str] in *; lia).
+        destruct (extloop_lits a fuel st i (41%N :: tail) extended ta false Ga ltac:(lia) L) as [st1 [L1 E1]].
+        eexists. eexists. eexists. split; [apply lp_inv_upd; exact L1|].
+        split; [eapply eq_trans; [exact E1|]; apply Close; lia|]. apply jrev_lits_app.
+      + change (alts_src (a :: b :: alts')) with (a ++ [124%N] ++ alts_src (b :: alts')) in *.
+        change (alts_re (a :: b :: alts')) with (re_escape a ++ [124%N] ++ alts_re (b :: alts')).
+        rewrite !app_length in Hf. cbn [length] in Hf. rewrite <- !app_assoc.
+        assert (Hfa : (length a + 1 + length (alts_src (b :: alts')) + 1 <= fuel)%nat) by (cbv delta [ch str] in *; lia).
+        destruct (extloop_lits a fuel st i ([124%N] ++ alts_src (b :: alts') ++ 41%N :: tail) extended ta false Ga ltac:(lia) L) as [st1 [L1 E1]].
+        destruct (fuel - length a)%nat as [|f1] eqn:Ef; [lia|].
+        assert (L2 : lp_inv (update_dir_state (if ta then set_start_dir st1 else st1))).
+        { apply lp_inv_upd. destruct ta; [apply lp_inv_sd|]; exact L1. }
+        destruct (IH f1 (update_dir_state (if ta then set_start_dir st1 else st1)) (i + Z.of_nat (length a) + 1) tail
+                     (T [cBAR] :: rev (map (fun c => T (re_escape_ch c)) a) ++ extended) ta Gs ltac:(lia) L2)
+          as [st' [i' [ext' [L' [E J]]]]].
+        exists st', i', ext'. split; [exact L'|]. split.
+        * eapply eq_trans; [exact E1|]. eapply eq_trans; [|exact E].
+          cbn [app]. cbn [ext_loop next rest idx].
+          replace (ch_in 124%N ext_types) with false by reflexivity. rewrite andb_false_r.
+          change (N.eqb 124%N cSTAR) with false. change (N.eqb 124%N cDOT) with false. change (N.eqb 124%N cQM) with false.
+          change (N.eqb 124%N cSL) with false. change (N.eqb 124%N cBAR) with true. cbv iota.
+          destruct L1 as [La [Lb [Lc Ld]]]. rewrite Lb. change (N.eqb 124%N cRP) with false. cbv iota. reflexivity.
+        * rewrite J, jrev_cons, jrev_lits_app. rewrite <- !app_assoc. reflexivity.
+  Qed.
+
+  Definition grp_ty (ty : ch) : bool := ch_in ty [63; 42; 43; 64]%N.
+
+  Lemma ext_grp f st ty i alts tail cur first :
+    grp_ty ty = true -> Forall (fun a => forallb gplain a = true) alts -> (length (alts_src alts) + 1 <= f)%nat -> inv2x first st ->
+    exists st' i',
+      ext (S f) cf st ty {| idx := i; rest := 40%N :: alts_src alts ++ 41%N :: tail |} cur true =
+      Ok (true, st', {| idx := i'; rest := tail |}, T (group_text cf ty (alts_re alts)) :: cur) /\ inv2x false st'.
+  Proof.
+    intros Gt Ga Hf [[I1 [I2 [I3 I4]]] [I5 I6]].
+    assert (Tne : N.eqb ty cEX = false).
+    { unfold grp_ty, ch_in in Gt. cbn [existsb] in Gt. destruct (N.eqb_spec ty cEX) as [->|]; [discriminate|reflexivity]. }
+    cbn [ext next rest idx]. change (N.eqb 40%N cLP) with true. cbn [negb]. rewrite I6, I5, Tne.
+    assert (L : lp_inv (set_mdd (set_lists st true false) false)) by (repeat split; cbn; assumption).
+    destruct (extloop_alts alts f (set_mdd (set_lists st true false) false) (i + 1) tail [] (after_start st) Ga Hf L)
+      as [st2 [i' [ext' [[La [Lb [Lc Ld]]] [E J]]]]].
+    rewrite E. cbn [jrev rev map concat app] in J. rewrite J.
+    eexists. exists i'. split; [reflexivity|].
+    repeat split; cbn; auto.
+  Qed.
+
+  Hypothesis Hext : c_extend cf = true.
+
+  (* the loop meets `ty(`: the group is parsed and its text appended *)
+  Lemma step_grp f st ty i alts tail cur first :
+    grp_ty ty = true -> Forall (fun a => forallb gplain a = true) alts -> (length (alts_src alts) + 1 <= f)%nat -> inv2x first st ->
+    exists st' i',
+      root_loop (S (S f)) cf st {| idx := i; rest := ty :: 40%N :: alts_src alts ++ 41%N :: tail |} cur =
+      root_loop (S f) cf st' {| idx := i'; rest := tail |} (T (group_text cf ty (alts_re alts)) :: cur) /\ inv2x false st'.
+  Proof.
+    intros Gt Ga Hf I2.
+    destruct (ext_grp f st ty (i + 1) alts tail cur first Gt Ga Hf I2) as [st1 [i' [E I1]]].
+    exists (update_dir_state st1), i'. split; [|eapply inv2x_update; exact I1].
+    cbn [root_loop next rest idx]. rewrite Hext.
+    assert (Te : ch_in ty ext_types = true).
+    { unfold grp_ty, ch_in in Gt. cbn [existsb] in Gt. rewrite !orb_false_r in Gt.
+      unfold ext_types, Sets.EXT_TYPES, ch_in. cbn [existsb].
+      apply orb_true_iff in Gt. destruct Gt as [G|Gt]; [rewrite G; rewrite ?orb_true_r; reflexivity|].
+      apply orb_true_iff in Gt. destruct Gt as [G|Gt]; [rewrite G; rewrite ?orb_true_r; reflexivity|].
+      apply orb_true_iff in Gt. destruct Gt as [G|G]; rewrite G; rewrite ?orb_true_r; reflexivity. }
+    rewrite Te. cbn [andb]. rewrite E. reflexivity.
+  Qed.
+End Grp.
+
+(* ---- semantics with a continuation: the flat theorem of C01Flat with arbitrary text [rest] following ---- *)
+Open Scope N_scope.
+
+Fixpoint DenR (dot first : bool) (ts : list tok) (n rest : str) : Prop :=
+  match ts with
+  | [] => n = []
+  | TLit c :: r => exists n', n = c :: n' /\ DenR dot false r n' rest
+  | TEsc c :: r => exists n', n = c :: n' /\ DenR dot false r n' rest
+  | TQ :: r => exists x n', n = x :: n' /\ (first = true -> dot = false -> x <> 46) /\ DenR dot false r n' rest
+  | TStar :: r => exists s n', n = s ++ n' /\ (first = true -> n ++ rest <> []) /\
+                               (first = true -> dot = false -> forall y, n ++ rest <> 46 :: y) /\ DenR dot false r n' rest
+  | TBr neg l :: r => exists x n', n = x :: n' /\ (if neg then ~ In x l else In x l) /\
+                                   (first = true -> dot = false -> x <> 46) /\ DenR dot false r n' rest
+  end.
+
+Lemma DenR_nil dot : forall ts first n, DenR dot first ts n [] <-> Den dot first ts n.
+Proof.
+  induction ts as [|t ts IH]; intros first n; [reflexivity|].
+  destruct t as [c|c| | |neg l]; cbn [DenR Den].
+  - split; intros [n' [E H]]; exists n'; (split; [exact E|apply IH; exact H]).
+  - split; intros [n' [E H]]; exists n'; (split; [exact E|apply IH; exact H]).
+  - split; intros [x [n' [E [A H]]]]; exists x, n'; (split; [exact E|]); (split; [exact A|apply IH; exact H]).
+  - rewrite app_nil_r. split; intros [s [n' [E [A [B H]]]]]; exists s, n'; (split; [exact E|]); (split; [exact A|]); (split; [exact B|apply IH; exact H]).
+  - split; intros [x [n' [E [A [B H]]]]]; exists x, n'; (split; [exact E|]); (split; [exact A|]); (split; [exact B|apply IH; exact H]).
+Qed.
+
+Lemma guard_one_rest dot first (P : ch -> Prop) (a : re) rs n rest :
+  (forall s r0, M a s r0 <-> exists x, s = [x] /\ P x) ->
+  (Mseq ((if first && negb dot then [NLook (SetOf [46])] else []) ++ a :: rs) n rest <->
+   exists x n', n = x :: n' /\ P x /\ (first = true -> dot = false -> x <> 46) /\ Mseq rs n' rest).
+Proof.
+  intros Ha. destruct (first && negb dot) eqn:G; cbn [app Mseq].
+  - apply andb_true_iff in G. destruct G as [-> G]. apply negb_true_iff in G. subst dot. split.
+    + intros [s1 [s2 [E [HG [s3 [s4 [E2 [H1 H2]]]]]]]]. cbn [M] in HG. destruct HG as [-> HN]. apply Ha in H1. destruct H1 as [x [-> Px]].
+      cbn [app] in *. subst. exists x, s4. split; [reflexivity|]. split; [exact Px|]. split; [|exact H2].
+      intros _ _ ->. apply (proj1 (nlook_dot _) HN (s4 ++ rest)). reflexivity.
+    + intros [x [n' [E [Px [Hx H]]]]]. subst. exists [], (x :: n'). split; [reflexivity|]. split.
+      * cbn [M]. split; [reflexivity|]. apply nlook_dot. intros y Ey. cbn [app] in Ey. inversion Ey; subst. apply Hx; reflexivity.
+      * exists [x], n'. split; [reflexivity|]. split; [apply Ha; exists x; split; [reflexivity|exact Px]|exact H].
+  - split.
+    + intros [s1 [s2 [E [H1 H2]]]]. apply Ha in H1. destruct H1 as [x [-> Px]]. subst. exists x, s2. split; [reflexivity|]. split; [exact Px|].
+      split; [|exact H2]. intros -> ->. discriminate.
+    + intros [x [n' [E [Px [_ H]]]]]. subst. exists [x], n'. split; [reflexivity|]. split; [apply Ha; exists x; split; [reflexivity|exact Px]|exact H].
+Qed.
+
+Theorem emit_sound_complete_rest dot : forall ts first n rest,
+  Mseq (emit dot first ts) n rest <-> DenR dot first ts n rest.
+Proof.
+  induction ts as [|t ts IH]; intros first n rest.
+  - cbn. reflexivity.
+  - destruct t as [c|c| | |neg l].
+    + cbn [emit Mseq DenR]. split.
+      * intros [s1 [s2 [E [H1 H2]]]]. apply lit_re_M in H1. subst. exists s2. split; [reflexivity|apply IH; exact H2].
+      * intros [n' [E H]]. subst. exists [c], n'. split; [reflexivity|]. split; [apply lit_re_M; reflexivity|apply IH; exact H].
+    + cbn [emit Mseq DenR M]. split.
+      * intros [s1 [s2 [E [H1 H2]]]]. subst. exists s2. split; [reflexivity|apply IH; exact H2].
+      * intros [n' [E H]]. subst. exists [c], n'. split; [reflexivity|]. split; [reflexivity|apply IH; exact H].
+    + cbn [emit DenR].
+      rewrite (guard_one_rest dot first (fun _ => True) Any (emit dot false ts) n rest).
+      * split; intros [x [n' [E H]]]; exists x, n'; (split; [exact E|]).
+        -- destruct H as [_ [B C]]. split; [exact B|apply IH; exact C].
+        -- destruct H as [B C]. split; [exact I|]. split; [exact B|apply IH; exact C].
+      * intros s r0. cbn [M]. split; [intros [x ->]; exists x; split; [reflexivity|exact I]|intros [x [-> _]]; exists x; reflexivity].
+    + cbn [emit DenR].
+      assert (Core : forall n0, (exists s1 s2, n0 = s1 ++ s2 /\ M (StarLazy Any) s1 (s2 ++ rest) /\ Mseq (emit dot false ts) s2 rest) <->
+                                (exists s n', n0 = s ++ n' /\ DenR dot false ts n' rest)).
+      { intros n0. split.
+        - intros [s1 [s2 [E [_ H]]]]. exists s1, s2. split; [exact E|apply IH; exact H].
+        - intros [s [n' [E H]]]. exists s, n'. split; [exact E|]. split; [apply star_any_all|apply IH; exact H]. }
+      destruct first; cbn [andb app].
+      * destruct dot; cbn [negb app Mseq].
+        -- split.
+           ++ intros [s1 [s2 [E [[-> HP] H]]]]. cbn [app] in E. subst s2. apply Core in H. destruct H as [s [n' [E H]]].
+              exists s, n'. split; [exact E|]. split; [|split; [intros _ X; discriminate|exact H]].
+              intros _. apply plook_any in HP. exact HP.
+           ++ intros [s [n' [E [Hne [_ H]]]]]. exists [], n. split; [reflexivity|]. split.
+              ** split; [reflexivity|]. apply plook_any. apply Hne. reflexivity.
+              ** apply Core. exists s, n'. split; [exact E|exact H].
+        -- split.
+           ++ intros [s1 [s2 [E [[-> HP] [s3 [s4 [E2 [[-> HN] H]]]]]]]]. cbn [app] in *. subst. apply Core in H. destruct H as [s [n' [E H]]].
+              exists s, n'. split; [exact E|]. apply plook_any in HP. split; [intros _; exact HP|]. split; [|exact H].
+              intros _ _ y Ey. apply (proj1 (nlook_dot _) HN y). exact Ey.
+           ++ intros [s [n' [E [Hne [Hd H]]]]]. exists [], n. split; [reflexivity|]. split.
+              ** split; [reflexivity|]. apply plook_any. apply Hne. reflexivity.
+              ** exists [], n. split; [reflexivity|]. split.
+                 --- split; [reflexivity|]. apply nlook_dot. intros y Ey. apply (Hd eq_refl eq_refl y Ey).
+                 --- apply Core. exists s, n'. split; [exact E|exact H].
+      * cbn [Mseq]. split.
+        -- intros H. apply Core in H. destruct H as [s [n' [E H]]]. exists s, n'. split; [exact E|]. split; [discriminate|]. split; [discriminate|exact H].
+        -- intros [s [n' [E [_ [_ H]]]]]. apply Core. exists s, n'. split; [exact E|exact H].
+    + cbn [emit DenR].
+      rewrite (guard_one_rest dot first (fun x => if neg then ~ In x l else In x l) (if neg then NSetOf l else SetOf l) (emit dot false ts) n rest).
+      * split; intros [x [n' [E [A [B C]]]]]; exists x, n'; (split; [exact E|]); (split; [exact A|]); (split; [exact B|]); apply IH; exact C.
+      * intros s r0. destruct neg; cbn [M]; reflexivity.
+Qed.
+
+(* ---- patterns as chunks: flat runs and groups of literal alternatives ---- *)
+Inductive chunk := CFlat (ts : list tok) | CGrp (ty : ch) (alts : list str).
+
+Definition unparse_c (c : chunk) : str :=
+  match c with
+  | CFlat ts => unparse ts
+  | CGrp ty alts => ty :: 40 :: alts_src alts ++ [41]
+  end.
+Definition unparse_cs (cs : list chunk) : str := flat_map unparse_c cs.
+
+(* regular expressions: the atoms of C01Flat plus `(?:a|b|…)` with a quantifier *)
+Inductive rex := RFlat (r : re) | RGrp (ty : ch) (alts : list str).
+Definition printx1 (x : rex) : str :=
+  match x with
+  | RFlat r => print1 r
+  | RGrp ty alts => S_ "(?:" ++ alts_re alts ++ S_ ")" ++
+                    (if ty =? 63 then S_ "?" else if ty =? 42 then S_ "*" else if ty =? 43 then S_ "+" else [])
+  end.
+Definition printx (xs : list rex) : str := flat_map printx1 xs.
+
+(* concatenations of alternatives *)
+Inductive Rep (alts : list str) : str -> Prop :=
+| Rep_nil : Rep alts []
+| Rep_cons a s : In a alts -> Rep alts s -> Rep alts (a ++ s).
+
+Definition GrpDen (ty : ch) (alts : list str) (s : str) : Prop :=
+  if ty =? 63 then s = [] \/ In s alts
+  else if ty =? 42 then Rep alts s
+  else if ty =? 43 then exists a s', In a alts /\ Rep alts s' /\ s = a ++ s'
+  else In s alts.
+
+Fixpoint Mseqx (xs : list rex) (s rest : str) : Prop :=
+  match xs with
+  | [] => s = []
+  | RFlat r :: xs' => exists s1 s2, s = s1 ++ s2 /\ M r s1 (s2 ++ rest) /\ Mseqx xs' s2 rest
+  | RGrp ty alts :: xs' => exists s1 s2, s = s1 ++ s2 /\ GrpDen ty alts s1 /\ Mseqx xs' s2 rest
+  end.
+
+Definition is_nilt (ts : list tok) : bool := match ts with [] => true | _ => false end.
+
+Fixpoint emitc (dot first : bool) (cs : list chunk) : list rex :=
+  match cs with
+  | [] => []
+  | CFlat ts :: r => map RFlat (emit dot first ts) ++ emitc dot (first && is_nilt ts) r
+  | CGrp ty alts :: r => RGrp ty alts :: emitc dot false r
+  end.
+
+(* documented meaning; after a group the start-of-name rules no longer apply (for `?(…)`/`*(…)` at the very start that is
+   the known finding C03-group-then-wild, stated here as the code behaves) *)
+Fixpoint DenC (dot first : bool) (cs : list chunk) (n : str) : Prop :=
+  match cs with
+  | [] => n = []
+  | CFlat ts :: r => exists n1 n2, n = n1 ++ n2 /\ DenR dot first ts n1 n2 /\ DenC dot (first && is_nilt ts) r n2
+  | CGrp ty alts :: r => exists n1 n2, n = n1 ++ n2 /\ GrpDen ty alts n1 /\ DenC dot false r n2
+  end.
+
+Lemma Mseqx_flat_app : forall rs xs s rest,
+  Mseqx (map RFlat rs ++ xs) s rest <-> exists s1 s2, s = s1 ++ s2 /\ Mseq rs s1 (s2 ++ rest) /\ Mseqx xs s2 rest.
+Proof.
+  induction rs as [|r rs IH]; intros xs s rest.
+  - cbn [map app Mseq]. split.
+    + intros H. exists [], s. split; [reflexivity|]. split; [reflexivity|exact H].
+    + intros [s1 [s2 [E [-> H]]]]. cbn [app] in E. subst. exact H.
+  - cbn [map app Mseqx Mseq]. split.
+    + intros [a [b [E [Hr H]]]]. apply IH in H. destruct H as [b1 [b2 [Eb [H1 H2]]]]. subst.
+      exists (a ++ b1), b2. split; [rewrite app_assoc; reflexivity|]. split; [|exact H2].
+      exists a, b1. split; [reflexivity|]. split; [rewrite <- app_assoc in Hr; exact Hr|exact H1].
+    + intros [s1 [s2 [E [[a [b1 [E1 [Hr H1]]]] H2]]]]. subst.
+      exists a, (b1 ++ s2). split; [rewrite app_assoc; reflexivity|]. split; [rewrite <- app_assoc; exact Hr|].
+      apply IH. exists b1, s2. split; [reflexivity|]. split; [exact H1|exact H2].
+Qed.
+
+Theorem emitc_sound_complete dot : forall cs first n, Mseqx (emitc dot first cs) n [] <-> DenC dot first cs n.
+Proof.
+  induction cs as [|c cs IH]; intros first n; [reflexivity|].
+  destruct c as [ts|ty alts]; cbn [emitc DenC].
+  - rewrite Mseqx_flat_app. split.
+    + intros [s1 [s2 [E [H1 H2]]]]. exists s1, s2. split; [exact E|]. rewrite app_nil_r in H1.
+      split; [apply emit_sound_complete_rest; exact H1|apply IH; exact H2].
+    + intros [n1 [n2 [E [H1 H2]]]]. exists n1, n2. split; [exact E|]. rewrite app_nil_r.
+      split; [apply emit_sound_complete_rest; exact H1|apply IH; exact H2].
+  - cbn [Mseqx]. split; intros [n1 [n2 [E [H1 H2]]]]; exists n1, n2; (split; [exact E|]); (split; [exact H1|apply IH; exact H2]).
+Qed.
+
+(* ---- the text half for chunk lists ---- *)
+Open Scope Z_scope.
+
+Fixpoint cwf (cs : list chunk) : bool :=
+  match cs with
+  | [] => true
+  | CFlat ts :: r =>
+      wf ts && wfx ts &&
+      (match r with
+       | [] => true
+       | CGrp ty _ :: _ => negb (ends_star ts && N.eqb ty 42)
+       | CFlat _ :: _ => false
+       end) && cwf r
+  | CGrp ty alts :: r => grp_ty ty && forallb (forallb gplain) alts && cwf r
+  end.
+
+Lemma printx_flat rs xs : printx (map RFlat rs ++ xs) = print rs ++ printx xs.
+Proof. induction rs as [|r rs IH]; [reflexivity|]. cbn [map app printx flat_map printx1 print]. rewrite <- app_assoc. f_equal. exact IH. Qed.
+
+Lemma group_text_print cf ty body : grp_ty ty = true -> c_capture cf = false ->
+  group_text cf ty body = S_ "(?:" ++ body ++ S_ ")" ++
+    (if N.eqb ty 63 then S_ "?" else if N.eqb ty 42 then S_ "*" else if N.eqb ty 43 then S_ "+" else []).
+Proof.
+  intros G Hc. unfold group_text. rewrite Hc. unfold grp_ty, ch_in in G. cbn [existsb] in G. rewrite !orb_false_r in G.
+  unfold cQM, cSTAR, cPLUS, cAT.
+  destruct (N.eqb_spec ty 63) as [->|N63]; [reflexivity|].
+  destruct (N.eqb_spec ty 42) as [->|N42]; [reflexivity|].
+  destruct (N.eqb_spec ty 43) as [->|N43]; [reflexivity|].
+  destruct (N.eqb_spec ty 64) as [->|N64]; [reflexivity|].
+  cbn in G. discriminate.
+Qed.
+
+Lemma forallb_Forall {A} (f : A -> bool) l : forallb f l = true -> Forall (fun a => f a = true) l.
+Proof. induction l as [|x l IH]; intros H; [constructor|]. cbn in H. apply andb_true_iff in H. destruct H as [H1 H2]. constructor; [exact H1|apply IH; exact H2]. Qed.
+
+Section ChunkText.
+  Variable cf : cfg.
+  Hypothesis Hpath : c_pathname cf = false.
+  Hypothesis Habort : c_bslash_abort cf = false.
+  Hypothesis Hunix : c_unix cf = true.
+  Hypothesis Hsep : c_sep cf = S_ "[/]".
+  Hypothesis Hneed : c_need_char cf = Frag.u_NEED_CHAR.
+  Hypothesis Hcapt : c_capture cf = false.
+  Hypothesis Hext : c_extend cf = true.
+
+  Lemma chunks_loop : forall cs fuel st i cur first,
+    cwf cs = true -> (2 * length (unparse_cs cs) + 2 <= fuel)%nat -> inv2x first st ->
+    exists st' cur', root_loop fuel cf st {| idx := i; rest := unparse_cs cs |} cur = Ok (st', cur') /\
+                     jrev cur' = jrev cur ++ printx (emitc (c_dot cf) first cs) /\ inv st'.
+  Proof.
+    induction cs as [|c cs IH]; intros fuel st i cur first W Hf I2.
+    - destruct fuel as [|f]; [lia|]. exists st, cur. split; [reflexivity|]. split; [cbn; rewrite app_nil_r; reflexivity|].
+      eapply inv2_inv. apply I2.
+    - destruct c as [ts|ty alts].
+      + cbn [cwf] in W. apply andb_true_iff in W. destruct W as [W Wr]. apply andb_true_iff in W. destruct W as [W Wn].
+        apply andb_true_iff in W. destruct W as [Wf Wx].
+        change (unparse_cs (CFlat ts :: cs)) with (unparse ts ++ unparse_cs cs) in *. rewrite app_length in Hf.
+        assert (T1 : ends_star ts = true -> nostar_head (unparse_cs cs) = true).
+        { intros Es. destruct cs as [|[ts2|ty2 alts2] cs2]; [reflexivity|discriminate|].
+          rewrite Es in Wn. cbn [andb] in Wn. cbn [unparse_cs flat_map unparse_c app nostar_head]. exact Wn. }
+        assert (T2 : head_ok (unparse_cs cs) = true).
+        { destruct cs as [|[ts2|ty2 alts2] cs2]; [reflexivity|discriminate|].
+          cbn [cwf] in Wr. apply andb_true_iff in Wr. destruct Wr as [Wr _]. apply andb_true_iff in Wr. destruct Wr as [Gt _].
+          cbn [unparse_cs flat_map unparse_c app head_ok]. destruct (N.eqb_spec ty2 40) as [->|]; [discriminate|reflexivity]. }
+        destruct (flat_advance cf Hpath Habort Hunix Hsep Hneed ts fuel st i cur first (unparse_cs cs) Wf Wx T1 T2 ltac:(lia) I2)
+          as [f' [st1 [i1 [cur1 [F1 [E1 [J1 K1]]]]]]].
+        assert (K1' : inv2x (first && is_nilt ts) st1) by (destruct ts; [rewrite andb_true_r|rewrite andb_false_r]; exact K1).
+        destruct (IH f' st1 i1 cur1 (first && is_nilt ts) Wr ltac:(lia) K1') as [st' [cur' [E [J K]]]].
+        exists st', cur'. split; [eapply eq_trans; [exact E1|exact E]|]. split; [|exact K].
+        rewrite J, J1. cbn [emitc]. rewrite printx_flat, <- app_assoc. reflexivity.
+      + cbn [cwf] in W. apply andb_true_iff in W. destruct W as [W Wr]. apply andb_true_iff in W. destruct W as [Gt Ga].
+        apply forallb_Forall in Ga.
+        assert (U : unparse_cs (CGrp ty alts :: cs) = ty :: 40%N :: alts_src alts ++ 41%N :: unparse_cs cs).
+        { cbn [unparse_cs flat_map unparse_c]. cbn [app]. rewrite <- app_assoc. reflexivity. }
+        assert (Ln : (length (unparse_cs (CGrp ty alts :: cs)) = 3 + length (alts_src alts) + length (unparse_cs cs))%nat).
+        { rewrite U. cbn [length]. rewrite app_length. cbn [length]. lia. }
+        destruct fuel as [|[|f]]; [lia|lia|].
+        pose proof (step_grp cf) as SG. repeat match type of SG with ((_ = _) -> _) => specialize (SG ltac:(assumption)) end.
+        destruct (SG f st ty i alts (unparse_cs cs) cur first Gt Ga ltac:(lia) I2) as [st1 [i1 [E1 K1]]].
+        destruct (IH (S f) st1 i1 (T (group_text cf ty (alts_re alts)) :: cur) false Wr ltac:(lia) K1) as [st' [cur' [E [J K]]]].
+        exists st', cur'. split; [rewrite U; eapply eq_trans; [exact E1|exact E]|]. split; [|exact K].
+        rewrite J, jrev_cons. cbn [emitc printx flat_map]. rewrite (group_text_print cf ty _ Gt Hcapt). unfold printx1.
+        rewrite <- !app_assoc. reflexivity.
+  Qed.
+End ChunkText.
+
+Lemma str_eqb_true' : forall a b : str, str_eqb a b = true -> a = b.
+Proof.
+  induction a as [|x a IH]; intros [|y b] H; cbn in H; try discriminate; [reflexivity|].
+  apply andb_true_iff in H. destruct H as [H1 H2]. apply N.eqb_eq in H1. subst. f_equal. apply IH. exact H2.
+Qed.
+
+Lemma grp_ty_not c : grp_ty c = true -> c <> 92%N /\ c <> 40%N.
+Proof. unfold grp_ty, ch_in. cbn [existsb]. intros H. split; intros ->; discriminate. Qed.
+
+Lemma unparse_cs_not_lone_bs cs : cwf cs = true -> str_eqb (unparse_cs cs) [cBS] = false.
+Proof.
+  intros W. destruct (str_eqb (unparse_cs cs) [cBS]) eqn:E; [|reflexivity]. exfalso.
+  apply str_eqb_true' in E.
+  destruct cs as [|[ts|ty alts] r]; [discriminate| |].
+  - cbn [cwf] in W. apply andb_true_iff in W. destruct W as [W Wr]. apply andb_true_iff in W. destruct W as [W Wn].
+    apply andb_true_iff in W. destruct W as [Wf _].
+    change (unparse_cs (CFlat ts :: r)) with (unparse ts ++ unparse_cs r) in E.
+    destruct r as [|[ts2|ty2 alts2] r2]; [|discriminate|].
+    + cbn [unparse_cs flat_map] in E. rewrite app_nil_r in E. pose proof (unparse_not_lone_bs ts Wf) as Q. rewrite E in Q. discriminate.
+    + cbn [cwf] in Wr. apply andb_true_iff in Wr. destruct Wr as [Wr _]. apply andb_true_iff in Wr. destruct Wr as [Gt _].
+      destruct (grp_ty_not ty2 Gt) as [N92 _].
+      apply (f_equal (@length N)) in E. rewrite app_length in E. cbn [unparse_cs flat_map unparse_c app length] in E.
+      destruct ts as [|t ts']; [cbn in E; lia|]. destruct (unparse_cons t ts') as [d [r0 Er]]. rewrite Er in E. cbn [length] in E. lia.
+  - cbn [cwf] in W. apply andb_true_iff in W. destruct W as [W _]. apply andb_true_iff in W. destruct W as [Gt _].
+    destruct (grp_ty_not ty Gt) as [N92 _]. cbn [unparse_cs flat_map unparse_c app] in E. inversion E; try contradiction.
+Qed.
+
+Theorem wcparse_chunks flags isb cs :
+  cwf cs = true ->
+  has flags PATHNAME = false -> is_unix_style linux flags = true -> has flags EXTMATCH = true ->
+  has flags u_ANCHOR = false -> has flags MATCHBASE = false -> has flags u_EXTMATCHBASE = false ->
+  has flags u_TRANSLATE = false ->
+  wcparse linux flags isb (unparse_cs cs) =
+  inl (S_ "^(?s" ++ (if get_case linux flags then [] else S_ "i") ++ S_ ":" ++
+       printx (emitc (has flags DOTMATCH) true cs) ++ S_ ")$").
+Proof.
+  intros W Hp Hu Hx Ha Hm He Ht. unfold wcparse.
+  destruct (mk_cfg linux flags isb) as [cf st] eqn:E.
+  assert (Ecf : cf = fst (mk_cfg linux flags isb)) by (rewrite E; reflexivity).
+  assert (Est : st = snd (mk_cfg linux flags isb)) by (rewrite E; reflexivity).
+  assert (Hpath : c_pathname cf = false) by (rewrite Ecf; exact Hp).
+  assert (Hunix : c_unix cf = true) by (rewrite Ecf; exact Hu).
+  assert (Hext : c_extend cf = true) by (rewrite Ecf; exact Hx).
+  assert (Hdot : c_dot cf = has flags DOTMATCH) by (rewrite Ecf; reflexivity).
+  assert (Habort : c_bslash_abort cf = false) by (rewrite Ecf; unfold mk_cfg; cbn [fst c_bslash_abort]; rewrite Hu; reflexivity).
+  assert (Hwd : c_windrive cf = false) by (rewrite Ecf; unfold mk_cfg; cbn [fst c_windrive]; rewrite Hu; reflexivity).
+  assert (Hanchor : c_anchor cf = false) by (rewrite Ecf; exact Ha).
+  assert (Hcap : c_capture cf = false) by (rewrite Ecf; exact Ht).
+  assert (Hreal : c_realpath cf = false) by (rewrite Ecf; unfold mk_cfg; cbn [fst c_realpath]; rewrite Hp; apply andb_false_r).
+  assert (Hcs : c_cs cf = get_case linux flags) by (rewrite Ecf; reflexivity).
+  assert (Hsep : c_sep cf = S_ "[/]") by (rewrite Ecf; unfold mk_cfg; cbn [fst c_sep]; rewrite Hu; reflexivity).
+  assert (Hneed : c_need_char cf = Frag.u_NEED_CHAR) by (rewrite Ecf; unfold mk_cfg; cbn [fst c_need_char]; rewrite Hp; reflexivity).
+  assert (Hmb : matchbase st = false) by (rewrite Est; exact Hm).
+  assert (Hemb : extmatchbase st = false) by (rewrite Est; exact He).
+  assert (Hgs : globstar st = false) by (rewrite Est; unfold mk_cfg; cbn [snd globstar]; rewrite Hp; reflexivity).
+  assert (Hds : dir_start st = false /\ inv_ext st = 0) by (rewrite Est; split; reflexivity).
+  assert (Hls : in_list st = false /\ inv_nest st = false) by (rewrite Est; split; reflexivity).
+  unfold wcparse_cf. rewrite Hanchor, Hmb, Hemb. cbn [orb].
+  rewrite (unparse_cs_not_lone_bs cs W).
+  destruct (unparse_cs cs) as [|d r] eqn:Ep.
+  - assert (Ec : printx (emitc (has flags DOTMATCH) true cs) = []).
+    { destruct cs as [|[ts|ty alts] r]; [reflexivity| |discriminate].
+      change (unparse_cs (CFlat ts :: r)) with (unparse ts ++ unparse_cs r) in Ep. apply app_eq_nil in Ep. destruct Ep as [E1 E2].
+      destruct ts as [|t ts']; [|destruct (unparse_cons t ts') as [d0 [r0 Er]]; rewrite Er in E1; discriminate].
+      cbn [cwf] in W. destruct r as [|[ts2|ty2 alts2] r2]; [reflexivity|rewrite andb_false_r in W; discriminate|discriminate]. }
+    rewrite Ec. rewrite Hcap, Hcs. reflexivity.
+  - rewrite <- Ep. remember (unparse_cs cs) as p eqn:Ep0.
+    unfold root. rewrite Hwd, Hpath, Hreal. cbn [andb negb]. rewrite ?andb_false_r.
+    assert (I2 : inv2x true (set_after_start st)) by (destruct Hds, Hls; repeat split; cbn; auto).
+    pose proof (chunks_loop cf) as CL. repeat match type of CL with ((_ = _) -> _) => specialize (CL ltac:(assumption)) end.
+    destruct (CL cs (fuel_for p) (set_after_start st) 0 [T []] true W) as [st' [cur' [Eq [J [Hd' Hi']]]]].
+    { rewrite <- Ep0. unfold fuel_for. lia. }
+    { exact I2. }
+    rewrite <- Ep0 in Eq. rewrite Eq.
+    unfold clean_up_inverse. rewrite Hi'. cbn [Z.eqb]. rewrite Hcap, Hcs, J, Hdot.
+    destruct (matchbase st' || extmatchbase st'); reflexivity.
+Qed.
+
+(* both halves: flat tokens and groups of literal alternatives under EXTMATCH *)
+Theorem C01_ext_language flags isb cs :
+  cwf cs = true ->
+  has flags PATHNAME = false -> is_unix_style linux flags = true -> has flags EXTMATCH = true ->
+  has flags u_ANCHOR = false -> has flags MATCHBASE = false -> has flags u_EXTMATCHBASE = false ->
+  has flags u_TRANSLATE = false ->
+  exists xs,
+    wcparse linux flags isb (unparse_cs cs) =
+      inl (S_ "^(?s" ++ (if get_case linux flags then [] else S_ "i") ++ S_ ":" ++ printx xs ++ S_ ")$") /\
+    forall n, Mseqx xs n [] <-> DenC (has flags DOTMATCH) true cs n.
+Proof.
+  intros. exists (emitc (has flags DOTMATCH) true cs). split; [apply wcparse_chunks; assumption|].
+  intros n. apply emitc_sound_complete.
+Qed.
+
+Example ext_example_text :
+  wcparse linux EXTMATCH false (unparse_cs [CFlat [TLit 97%N; TStar]; CGrp 43%N [S_ "bc"; S_ "d"]; CGrp 63%N [S_ "x"]; CFlat [TQ]]) =
+  inl (S_ "^(?s:a.*?(?:bc|d)+(?:x)?.)$").
+Proof. vm_compute. reflexivity. Qed.
+
+Example ext_example_src :
+  unparse_cs [CFlat [TLit 97%N; TStar]; CGrp 43%N [S_ "bc"; S_ "d"]; CGrp 63%N [S_ "x"]; CFlat [TQ]] = S_ "a*+(bc|d)?(x)?" /\
+  cwf [CFlat [TLit 97%N; TStar]; CGrp 43%N [S_ "bc"; S_ "d"]; CGrp 63%N [S_ "x"]; CFlat [TQ]] = true.
+Proof. vm_compute. split; reflexivity. Qed.
+
+Example ext_example_den :
+  DenC false true [CFlat [TLit 97%N]; CGrp 43%N [S_ "bc"; S_ "d"]] (S_ "abcd") /\
+  ~ DenC false true [CFlat [TLit 97%N]; CGrp 64%N [S_ "bc"; S_ "d"]] (S_ "abcd").
+Proof.
+  split.
+  - exists (S_ "a"), (S_ "bcd"). split; [reflexivity|]. split; [exists []; split; reflexivity|].
+    exists (S_ "bcd"), []. split; [reflexivity|]. split; [|reflexivity].
+    unfold GrpDen. cbn [N.eqb Pos.eqb]. exists (S_ "bc"), (S_ "d"). split; [left; reflexivity|]. split; [|reflexivity].
+    change (S_ "d") with (S_ "d" ++ []). apply Rep_cons; [right; left; reflexivity|constructor].
+  - intros [n1 [n2 [E [D1 D2]]]]. cbn [DenR] in D1. destruct D1 as [n' [E1 E2]]. subst n' n1.
+    cbn [app] in E. inversion E as [E']. clear E. subst n2.
+    cbn [DenC] in D2. destruct D2 as [m1 [m2 [E3 [G E4]]]]. subst m2. rewrite app_nil_r in E3. subst m1.
+    unfold GrpDen in G. cbn [N.eqb Pos.eqb] in G. destruct G as [G|[G|[]]]; discriminate.
+Qed.
